@@ -1387,6 +1387,45 @@ impl Database {
     pub fn verif_header(&self) -> crate::verif::HeaderSnapshot {
         self.mem.verif_header()
     }
+
+    fn verif_pages_from(
+        &self,
+        root: Option<BtreeHeader>,
+        hint: PageHint,
+    ) -> Result<Vec<crate::verif::Page>> {
+        let tree = TableTree::new(
+            root,
+            hint,
+            Arc::new(TransactionGuard::untracked()),
+            PageResolver::new(self.mem.clone()),
+        )?;
+        let mut pages = vec![];
+        tree.visit_all_pages(|path| {
+            let page = path.page_number();
+            pages.push((page.region, page.page_index, page.page_order));
+            Ok(())
+        })?;
+        Ok(pages)
+    }
+
+    /// Verification hook: every page reachable from the last durable commit (data tree, system
+    /// tree)
+    pub fn verif_durable_pages(
+        &self,
+    ) -> Result<(Vec<crate::verif::Page>, Vec<crate::verif::Page>)> {
+        Ok((
+            self.verif_pages_from(self.mem.get_durable_data_root(), PageHint::None)?,
+            self.verif_pages_from(self.mem.get_durable_system_root(), PageHint::None)?,
+        ))
+    }
+
+    /// Verification hook: every page reachable from the data root a savepoint captured
+    pub fn verif_savepoint_pages(
+        &self,
+        savepoint: &crate::Savepoint,
+    ) -> Result<Vec<crate::verif::Page>> {
+        self.verif_pages_from(savepoint.get_user_root(), PageHint::None)
+    }
 }
 
 impl Drop for Database {
